@@ -17,6 +17,7 @@ import DdnnfVerif.Model.Lex
 import DdnnfVerif.Model.StreamMsg
 import DdnnfVerif.Model.Edit
 import DdnnfVerif.Model.TWise
+import DdnnfVerif.Model.TWiseGen
 import DdnnfVerif.Model.SatState
 import DdnnfVerif.Proofs.PDLeaf
 import DdnnfVerif.Proofs.CnfExport
@@ -293,6 +294,25 @@ def answer (nodes : List NType) (n : Nat) (kind : String) (args : List String) :
        | t :: "|" :: rest =>
            let cfgs := ((splitOnTok ";" rest).filter (!·.isEmpty)).map fun c => c.filterMap String.toInt?
            TWise.verdict nodes n (t.toNat?.getD 0) cfgs
+       | _ => "bad-args")
+  | "twgen" =>
+      -- `q twgen t | I a b ; c d | S 1 0 | D 1 0 | H 3 -1`: the construction itself, replayed with the
+      -- order-dependent choices recorded in the real run; the answer is the sample in the order of `Sample::iter`
+      (match args with
+       | t :: rest =>
+           let entries := ((splitOnTok "|" rest).filter (!·.isEmpty)).filterMap fun e =>
+             match e with
+             | "I" :: ws => some (TW.OEntry.inter (if ws.isEmpty then [] else (splitOnTok ";" ws).map parseIntsD))
+             | "S" :: ws => some (TW.OEntry.sorted (ws.filterMap String.toNat?))
+             | "D" :: ws => some (TW.OEntry.drop (ws.map (· == "1")))
+             | "H" :: ws => some (TW.OEntry.shuf (parseIntsD ws))
+             | _ => none
+           let (r, q) := TW.sampleTWiseQ (TW.ctxOf nodes n) (t.toNat?.getD 0) { entries := entries }
+           let body := match r with
+             | .void => "false"
+             | .empty => "true"
+             | .sample _ => ";".intercalate (r.configs.map fmtInts)
+           s!"rejected={q.rejected} left={q.entries.length} | {body}"
        | _ => "bad-args")
   | "addunit" =>
       -- `q addunit f`: the edited feature count and node array
